@@ -78,7 +78,7 @@ def random_case(rng):
 
 def run(ctx):
     ctx.mc(FAM, "Gzip", "MC_Gzip.cfg", required_actions=["AWrite", "AFlush", "AFinish", "End"],
-           overrides=ctx.pick({}, {"MaxOps": 4}))
+           overrides=ctx.pick({}, {"MaxOps": 4, "Lens": "{0, 1, 1023, 1024, 1025}", "Versions": '{"1.0", "1.1"}'}))
     paths = ctx.gen_paths(FAM, "Gen_Gzip", "Gen_Gzip.cfg",
                           overrides=ctx.pick({}, {"Lens": "{0, 1, 1023, 1024, 1025}", "Pres": '{"none", "vary", "ce"}'}))
     jobs = []
@@ -101,7 +101,7 @@ def run(ctx):
     ctx.note("responses_gzip_encoded", enc)
     if enc == 0:
         raise framework.Machinery("vacuity: no recorded response was gzip encoded")
-    ctx.cov["rule"] = ("programs: every write/flush/finish sequence up to 3 operations with lengths {0,1,1023,1024} for "
+    ctx.cov["rule"] = ("programs: every write/flush/finish sequence up to 3 operations with lengths {0,1,1024} (thorough: + 1023, 1025) for "
                        "content types {default text/html, application/json; charset, image/png} x Accept-Encoding {absent, gzip, "
                        "'deflate, gzip', identity}; plus seeded random programs (arbitrary bytes up to 3000, 12 content types, 11 "
                        "Accept-Encoding values, HTTP/1.0, pre-set Vary / Content-Encoding, partial socket writes); %d responses "
